@@ -5,6 +5,7 @@ import random
 
 import common as C
 import c12_fill
+import c12_fail
 
 COQ_FILES = ("Base/Bytes.v", "L4_Eval/Store.v", "L5_Stores/Lru.v", "L5_Stores/RunStore.v", "L5_Stores/LruProofs.v", "L5_Stores/LruMulti.v",
              "Extracted/ConstLru.v", "Properties/C12.v", "Properties/C12b.v", "Base/PyRt.v", "Extracted/GenLru.v", "Extracted/GenCacheOpt.v", "L5_Stores/GenLruProofs.v", "L5_Stores/GenCacheOptProofs.v", "Properties/C12g.v")
@@ -120,6 +121,16 @@ def run(rep, tier, seed, proof_ok):
                 "(scan, fill-then-new, zigzag, hot-cold, late-store, bursts, restore, random) x {memory, local} x wrapper built directly / through "
                 "dds.set_store(cache_objects=), plus 2-3 clients over one store; answers in lock-step with the bare store, cache entries and fetched objects "
                 "still alive (weak references) compared with the configured bound after EVERY operation, and the Coq model (memory); "
+                "plus the failure dimension (c12_fail.py): sequences in which operations FAIL in the wrapped store - store_blob of values that cannot be "
+                "written (lambda, open file, object whose __reduce__ raises, value whose codec raises after half of the file, unregistered codec reference), "
+                "store_blob of a blob that cannot be loaded back (the fetch fails), store_blob under an injected fault of the underlying store (before the write / "
+                "between blob and metadata / after the write), fetch of a planted blob whose metadata names an unknown codec or that has no metadata, sync / fetch "
+                "of refused paths - around every failing operation: 5 prefixes (nothing, has, fetch, has+fetch, another key) x repeated has / fetch, a retry "
+                "of the store, another key, paths (systematic, 85 sequences x {memory, local}) + random length 8..40 (120 quick / 1500 thorough) x capacities "
+                "{1,2,3,10,unbounded,cache_objects=True} x wrapper built directly / through dds.set_store; the failing call must fail the same way on the bare "
+                "store and EVERY later answer must equal the bare store's, entries / live objects within the bound after every operation; plus whole "
+                "evaluations (dds.eval twice or more / dds.load) of kept functions whose result cannot be stored, outcome of every step compared with "
+                "cache_objects=None; "
                 "distinct = distinct (store, capacity, sequence); non-trivial = contains a fetch or has "
                 "after another operation on the same key (fill: a never-fetched key is fetched while the cache is full)")
     seqs = gen_sequences(rng, tier if proof_ok else "thorough")
@@ -222,6 +233,8 @@ def run(rep, tier, seed, proof_ok):
                           {"multi": True, "cap": w["cap"], "ops": w["ops"], "impl": ";".join(rw["outs"]), "model": mmodel[k2 // 2]})
     # key sets larger than the capacity: the bound after every operation (c12_fill.py)
     fill = c12_fill.run(rep, tier, seed, proof_ok, rng, ops_coq, PRELUDE)
+    # operations that fail in the wrapped store as part of the sequences (c12_fail.py)
+    fail = c12_fail.run(rep, tier, seed, rng)
     # option decoding
     dexprs = []
     for a in decode_args:
@@ -233,7 +246,7 @@ def run(rep, tier, seed, proof_ok):
         if i != m:
             rep.violation(f"decode:{a}", f"cache_objects={a}: implementation gives {i}, model {m}", {"cache_objects": a, "impl": i, "model": m})
     rep.extra["input_distribution"] = {"sequences": len(seqs), "jobs": len(jobs), "max_len": max(len(s) for s in seqs),
-                                       "cache_len_histogram": lens_hist, "fill": fill}
+                                       "cache_len_histogram": lens_hist, "fill": fill, "fail": fail}
     rep.sample({"store": jobs[0]["store"], "cap": jobs[0]["cap"], "ops": jobs[0]["ops"]})
     rep.sample({"store": jobs[-2]["store"], "cap": jobs[-2]["cap"], "ops": jobs[-2]["ops"]})
 
@@ -242,6 +255,8 @@ def replay(path):
     r = json.load(open(path))["replay"]
     if r.get("fill"):
         return c12_fill.replay(r)
+    if r.get("fail"):
+        return c12_fail.replay(r)
     if r.get("multi"):
         o = C.run_driver("drive_store.py", {"seqs": [{"store": r.get("store", "memory"), "cap": r["cap"], "clients": r.get("clients", 2), "ops": r["ops"]},
                                                      {"store": r.get("store", "memory"), "cap": "bare", "ops": [x for _, x in r["ops"]]}]})["seqs"]
